@@ -207,6 +207,9 @@ func newBufferedSectionWriter(w io.WriterAt, begPos, maxBytes int64,
 				if len(buf) > 0 {
 					var nBytes int
 					nBytes, err = w.WriteAt(buf, pos)
+					if err == nil && nBytes != len(buf) {
+						err = io.ErrShortWrite
+					}
 					if err == nil && s != nil {
 						s.reportBytesWritten(uint64(nBytes))
 					}
